@@ -4,10 +4,12 @@
 //!                            (same request language as the Lean driver).
 //! `harness prop  < cases`  — evaluates the property itself on the implementation.
 mod codec;
+mod dump;
 mod frame;
 mod hitobj;
 mod sections;
 mod util;
+mod whole;
 
 use std::io::{self, BufRead, Write};
 use std::panic::{self, AssertUnwindSafe};
@@ -51,6 +53,7 @@ fn dispatch_impl(toks: &[&str]) -> String {
         .or_else(|| codec::dispatch_impl(toks))
         .or_else(|| sections::dispatch_impl(toks))
         .or_else(|| hitobj::dispatch_impl(toks))
+        .or_else(|| whole::dispatch_impl(toks))
         .unwrap_or_else(|| "bad-request".to_owned())
 }
 
@@ -59,5 +62,6 @@ fn dispatch_prop(toks: &[&str]) -> String {
         .or_else(|| codec::dispatch_prop(toks))
         .or_else(|| sections::dispatch_prop(toks))
         .or_else(|| hitobj::dispatch_prop(toks))
+        .or_else(|| whole::dispatch_prop(toks))
         .unwrap_or_else(|| "SKIP no-oracle".to_owned())
 }
